@@ -29,8 +29,21 @@ static H_LAST: AtomicU32 = AtomicU32::new(0xff00);
 pub static MAIN_TID: AtomicU32 = AtomicU32::new(0);
 pub static PID: AtomicU32 = AtomicU32::new(0);
 
-/// 0: gates only record; 1: gates follow the schedule
+/// 0: gates only record; 1: gates follow the schedule; 2: gate-aligned race (see `race_gate`)
 static MODE: AtomicU32 = AtomicU32::new(0);
+// ---- race mode: park the handle owner at gate GH and the thread at gate GT, release both
+// at once, the later party spins SKEW pauses first (SAMPLED: what happens inside the
+// ungated window after the two gates is up to the hardware) ----
+static RACE_GH: AtomicU32 = AtomicU32::new(0);
+static RACE_GT: AtomicU32 = AtomicU32::new(0);
+/// handle owner waits at this gate until the thread is parked (0: no such rule)
+static RACE_HOLD_H: AtomicU32 = AtomicU32::new(0);
+static RACE_ARRIVED: AtomicU32 = AtomicU32::new(0);
+static RACE_T_PARKED: AtomicU32 = AtomicU32::new(0);
+/// > 0: the handle owner is delayed by that many pauses, < 0: the thread
+static RACE_SKEW: core::sync::atomic::AtomicI32 = core::sync::atomic::AtomicI32::new(0);
+pub static RACE_ALIGNED: AtomicU32 = AtomicU32::new(0);
+pub static RACE_UNALIGNED: AtomicU32 = AtomicU32::new(0);
 static mut SCHED: [u32; MAXS] = [0; MAXS];
 static SCHED_LEN: AtomicUsize = AtomicUsize::new(0);
 /// pos << 2 | busy   (busy 0 free, 1 a thread runs until its next arrival, 2 a thread is exiting)
@@ -52,6 +65,76 @@ static GT_N: AtomicUsize = AtomicUsize::new(0);
 pub fn init() {
     MAIN_TID.store(sys::gettid(), SeqCst);
     PID.store(sys::getpid(), SeqCst);
+}
+
+pub fn set_race(gh: u32, gt: u32, hold_h: u32) {
+    RACE_GH.store(gh, SeqCst);
+    RACE_GT.store(gt, SeqCst);
+    RACE_HOLD_H.store(hold_h, SeqCst);
+    MODE.store(2, SeqCst);
+}
+
+/// Before each spawn of a race round
+pub fn race_round(skew: i32) {
+    RACE_ARRIVED.store(0, SeqCst);
+    RACE_T_PARKED.store(0, SeqCst);
+    RACE_SKEW.store(skew, SeqCst);
+}
+
+/// Forget all threads (all of them are gone): ordinals start at 0 again
+pub fn reset() {
+    NBLOCKS.store(0, SeqCst);
+    GT_N.store(0, SeqCst);
+    H_LAST.store(0xff00, SeqCst);
+}
+
+/// Spin (pause; a yield every 4096 rounds) until `cond` or the watchdog time is over
+fn spin_until(cond: impl Fn() -> bool) -> bool {
+    let t0 = sys::now_us();
+    let mut n = 0u32;
+    loop {
+        if cond() {
+            return true;
+        }
+        core::hint::spin_loop();
+        n = n.wrapping_add(1);
+        if n % 4096 == 0 {
+            if sys::now_us() - t0 > TIMEOUT_US.load(SeqCst) {
+                return false;
+            }
+            sys::sched_yield();
+        }
+    }
+}
+
+fn race_gate(id: u32, is_t: bool) {
+    let hold = RACE_HOLD_H.load(SeqCst);
+    if !is_t && hold != 0 && id == hold {
+        let _ = spin_until(|| RACE_T_PARKED.load(SeqCst) != 0);
+    }
+    let mine = if is_t { RACE_GT.load(SeqCst) } else { RACE_GH.load(SeqCst) };
+    if id != mine {
+        return;
+    }
+    if is_t {
+        RACE_T_PARKED.store(1, SeqCst);
+    }
+    RACE_ARRIVED.fetch_add(1, SeqCst);
+    let ok = spin_until(|| RACE_ARRIVED.load(SeqCst) >= 2);
+    if !is_t {
+        if ok {
+            RACE_ALIGNED.fetch_add(1, SeqCst);
+        } else {
+            RACE_UNALIGNED.fetch_add(1, SeqCst);
+        }
+    }
+    let skew = RACE_SKEW.load(SeqCst);
+    let delay = if is_t { -skew } else { skew };
+    let mut i = 0;
+    while i < delay {
+        core::hint::spin_loop();
+        i += 1;
+    }
 }
 
 pub fn n_threads() -> usize {
@@ -194,9 +277,13 @@ pub fn gate(id: u32, block: usize) {
     };
     // the handle owner is one actor (the main thread) whatever block it works on
     let me = if is_t { (ord as u32) << 1 | 1 } else { H_ACTOR };
-    if MODE.load(SeqCst) == 1 {
-        arrive(me);
-        wait_turn(ord as u32, id, me, tid);
+    match MODE.load(SeqCst) {
+        1 => {
+            arrive(me);
+            wait_turn(ord as u32, id, me, tid);
+        }
+        2 => race_gate(id, is_t),
+        _ => {}
     }
     let slot = GT_N.fetch_add(1, SeqCst);
     if slot < MAXG {
@@ -362,7 +449,7 @@ pub fn wait_all_gone(tmo: u64) -> usize {
     }
 }
 
-pub fn dump() {
+pub fn dump_ids() {
     for o in 0..NBLOCKS.load(SeqCst) {
         out::s("block ");
         out::u(o as u64);
@@ -371,6 +458,10 @@ pub fn dump() {
         out::nl();
         out::line("tid", &[o as u64, TIDS[o].load(SeqCst) as u64]);
     }
+}
+
+pub fn dump() {
+    dump_ids();
     let n = core::cmp::min(GT_N.load(SeqCst), MAXG);
     for i in 0..n {
         let (g, t) = unsafe {
